@@ -99,12 +99,18 @@ package formatter
 //@   requires [lines] PostingLinesOK(tx)
 //@   requires [small] len(mapper.content) < 4294967296
 //@   requires len(mapper.lines) == NL(mapper.content) && len(mapper.lineStarts) == len(mapper.lines) && (forall k int :: 0 <= k && k < len(mapper.lines) ==> mapper.lines[k] == substr(mapper.content, LS(mapper.content, k), LE(mapper.content, k)) && mapper.lineStarts[k] == LS(mapper.content, k))
-//@   ensures [C05:one_per_posting] len(result) == len(tx.Postings)
-//@   ensures [C05:to_line_end] forall e int :: 0 <= e && e < len(result) && tx.Postings[e].Range.Start.Line - 1 < NL(mapper.content) ==> result[e].Range.End.Character == lineU16(mapper.content, tx.Postings[e].Range.Start.Line - 1)
-//@   ensures [C05:whole_line] forall e int :: 0 <= e && e < len(result) ==> result[e].Range.Start.Line == tx.Postings[e].Range.Start.Line - 1 && result[e].Range.End.Line == result[e].Range.Start.Line && result[e].Range.Start.Character == 0 && result[e].Range.End.Character >= 0
-//@   loop 1 invariant 0 - 1 <= rangeindex && rangeindex <= len(tx.Postings) - 1 && len(edits) == rangeindex + 1
-//@   loop 1 invariant forall e int :: 0 <= e && e < len(edits) && tx.Postings[e].Range.Start.Line - 1 < NL(mapper.content) ==> edits[e].Range.End.Character == lineU16(mapper.content, tx.Postings[e].Range.Start.Line - 1)
-//@   loop 1 invariant forall e int :: 0 <= e && e < len(edits) ==> edits[e].Range.Start.Line == tx.Postings[e].Range.Start.Line - 1 && edits[e].Range.End.Line == edits[e].Range.Start.Line && edits[e].Range.Start.Character == 0 && edits[e].Range.End.Character >= 0
+//@   ensures [C05:at_most_one_per_posting] len(result) <= len(tx.Postings)
+//@   ensures [C05:one_per_unskipped] forall k int :: {tx.Postings[k]} 0 <= k && k < len(tx.Postings) && !opts.SkipLines[tx.Postings[k].Range.Start.Line - 1] ==> (exists e int :: {result[e]} 0 <= e && e < len(result) && result[e].Range.Start.Line == tx.Postings[k].Range.Start.Line - 1)
+//@   ensures [C04,C05:on_a_posting_line] forall e int :: {result[e]} 0 <= e && e < len(result) ==> (exists k int :: {tx.Postings[k]} 0 <= k && k < len(tx.Postings) && result[e].Range.Start.Line == tx.Postings[k].Range.Start.Line - 1)
+//@   ensures [C04:error_lines_untouched] forall e int :: {result[e]} 0 <= e && e < len(result) ==> !opts.SkipLines[result[e].Range.Start.Line]
+//@   ensures [C05:to_line_end] forall e int :: {result[e]} 0 <= e && e < len(result) && result[e].Range.Start.Line < NL(mapper.content) ==> result[e].Range.End.Character == lineU16(mapper.content, result[e].Range.Start.Line)
+//@   ensures [C05:whole_line] forall e int :: {result[e]} 0 <= e && e < len(result) ==> result[e].Range.End.Line == result[e].Range.Start.Line && result[e].Range.Start.Character == 0 && result[e].Range.End.Character >= 0
+//@   loop 1 invariant 0 - 1 <= rangeindex && rangeindex <= len(tx.Postings) - 1 && len(edits) <= rangeindex + 1 && (fresh(edits) || len(edits) == 0)
+//@   loop 1 invariant forall k int :: {tx.Postings[k]} 0 <= k && k <= rangeindex && !opts.SkipLines[tx.Postings[k].Range.Start.Line - 1] ==> (exists e int :: {edits[e]} 0 <= e && e < len(edits) && edits[e].Range.Start.Line == tx.Postings[k].Range.Start.Line - 1)
+//@   loop 1 invariant forall e int :: {edits[e]} 0 <= e && e < len(edits) ==> (exists k int :: {tx.Postings[k]} 0 <= k && k < len(tx.Postings) && edits[e].Range.Start.Line == tx.Postings[k].Range.Start.Line - 1)
+//@   loop 1 invariant forall e int :: {edits[e]} 0 <= e && e < len(edits) ==> !opts.SkipLines[edits[e].Range.Start.Line]
+//@   loop 1 invariant forall e int :: {edits[e]} 0 <= e && e < len(edits) && edits[e].Range.Start.Line < NL(mapper.content) ==> edits[e].Range.End.Character == lineU16(mapper.content, edits[e].Range.Start.Line)
+//@   loop 1 invariant forall e int :: {edits[e]} 0 <= e && e < len(edits) ==> edits[e].Range.End.Line == edits[e].Range.Start.Line && edits[e].Range.Start.Character == 0 && edits[e].Range.End.Character >= 0
 
 //@ specdef lineStr(c string, k int) string := substr(c, LS(c, k), LE(c, k))
 //@ specdef lineU16(c string, k int) int := u16(substr(c, LS(c, k), LE(c, k)), LE(c, k) - LS(c, k))
@@ -131,10 +137,14 @@ package formatter
 //@   props C04 C05 C06
 //@   requires journal != nil && len(content) < 4294967295 && JournalLinesOK(journal) && FormatsOK(commodityFormats)
 //@   requires [C04,C05:journal_of_content] parsedFrom(journal) == content
+//@   requires [C04:error_lines_skipped] forall l int :: {errLine(journal, l)} errLine(journal, l) ==> opts.SkipLines[l]
 //@   ensures [C04:nonposting_only_trimmed] forall e int :: 0 <= e && e < len(result) ==> postingLines[result[e].Range.Start.Line] || result[e].NewText == ""
+//@   ensures [C04:error_lines_only_trimmed] forall e int :: {result[e]} 0 <= e && e < len(result) && errLine(journal, result[e].Range.Start.Line) ==> result[e].NewText == ""
 //@   ensures [C05:single_line] forall e int :: 0 <= e && e < len(result) ==> result[e].Range.Start.Line == result[e].Range.End.Line
 //@   loop 1 invariant 0 - 1 <= rangeindex && rangeindex <= len(journal.Transactions) - 1 && MapOK(mapper, content) && postingLines != nil && fresh(postingLines) && opts.IndentSize > 0 && FormatsOK(commodityFormats)
 //@   loop 1 invariant forall e int :: 0 <= e && e < len(edits) ==> postingLines[edits[e].Range.Start.Line] && edits[e].Range.Start.Line == edits[e].Range.End.Line
+//@   loop 1 invariant forall e int :: {edits[e]} 0 <= e && e < len(edits) ==> !opts.SkipLines[edits[e].Range.Start.Line]
 //@   loop 2 invariant 0 <= i && i < len(journal.Transactions) && 0 - 1 <= rangeindex && rangeindex <= len(journal.Transactions[i].Postings) - 1 && MapOK(mapper, content) && postingLines != nil && fresh(postingLines) && opts.IndentSize > 0
 //@   loop 2 invariant forall e int :: 0 <= e && e < len(edits) ==> postingLines[edits[e].Range.Start.Line] && edits[e].Range.Start.Line == edits[e].Range.End.Line
+//@   loop 2 invariant forall e int :: {edits[e]} 0 <= e && e < len(edits) ==> !opts.SkipLines[edits[e].Range.Start.Line]
 //@   loop 2 invariant forall k int :: 0 <= k && k <= rangeindex ==> postingLines[journal.Transactions[i].Postings[k].Range.Start.Line - 1]
